@@ -5,7 +5,7 @@ import ast
 from typing import Optional
 
 from ..prog import AnalysisError, FuncInfo, call_name, short, stmt_head, unparse, walk_no_nested
-from ..util import atomic_guards, guards_at
+from ..util import assignments_to, atomic_guards, guards_at
 
 TR = "sigma.processing.transformations"
 TB = TR + ".base"
@@ -277,9 +277,9 @@ def r5_keyword_wildcards(ctx) -> None:
     r.floor("C12.R5", 3)
 
 
-def r6_rebuild_sites(ctx) -> None:
+def r6_rebuild_sites(ctx, rid: str = "C12.R6", scope=("sigma.types", "sigma.processing", "sigma.modifiers", "sigma.conversion"), floor: int = 2) -> None:
     r, prog = ctx.r, ctx.prog
-    r.rule("C12.R6", "rebuild sites forward the whole state: where a value object is rebuilt from another one of its class (inside a method of the class, or with arguments read from an instance of it) every init field of the class is supplied — regex flags survive placeholder expansion, field reference anchors survive field mapping")
+    r.rule(rid, "rebuild sites forward the whole state: where a value object is rebuilt from another one of its class (inside a method of the class, or with arguments read from an instance of it) every init field of the class is supplied — regex flags survive placeholder expansion, field reference anchors survive field mapping")
     targets = {"sigma.types.SigmaRegularExpression": None, "sigma.types.SigmaFieldReference": None, "sigma.types.SigmaCompareExpression": None,
                "sigma.types.SigmaQueryExpression": None, "sigma.types.SigmaTimestampPart": None}
     fields: dict[str, list[str]] = {}
@@ -294,7 +294,7 @@ def r6_rebuild_sites(ctx) -> None:
             fs.append(name)
         fields[cq] = fs
     n = 0
-    for f in prog.functions_in("sigma.types", "sigma.processing", "sigma.modifiers", "sigma.conversion"):
+    for f in prog.functions_in(*scope):
         for c in walk_no_nested(f.node):
             if not isinstance(c, ast.Call):
                 continue
@@ -302,7 +302,17 @@ def r6_rebuild_sites(ctx) -> None:
             if cq not in targets:
                 continue
             in_own_method = f.cls is not None and f.cls.qual == cq and f.node.args.args and f.node.args.args[0].arg == "self"
-            from_instance = any(isinstance(a, ast.Attribute) and cq in ctx.types.class_names(f.module, a.value) for arg in list(c.args) + [k.value for k in c.keywords] for a in ast.walk(arg))
+            def reads_instance(e: ast.AST, depth: int = 0) -> bool:
+                for a in ast.walk(e):
+                    if isinstance(a, ast.Attribute) and cq in ctx.types.class_names(f.module, a.value):
+                        return True
+                    if isinstance(a, ast.Name) and depth < 2 and a.id not in f.params():
+                        for v in assignments_to(f.node, a.id):  # local alias: regexp = val.regexp; ... K(regexp)
+                            src = v.value if isinstance(v, ast.AugAssign) else v
+                            if isinstance(src, ast.AST) and not isinstance(src, (ast.For, ast.With, ast.ExceptHandler, ast.comprehension)) and reads_instance(src, depth + 1):
+                                return True
+                return False
+            from_instance = any(reads_instance(arg) for arg in list(c.args) + [k.value for k in c.keywords])
             if not (in_own_method or from_instance):
                 continue
             n += 1
@@ -312,10 +322,10 @@ def r6_rebuild_sites(ctx) -> None:
             if any(isinstance(a, ast.Starred) for a in c.args) or any(k.arg is None for k in c.keywords):
                 missing = []
             if missing:
-                r.violation("C12.R6", f.qual, short(c, 100), f"the rebuilt {cq.rsplit('.', 1)[-1]} does not receive {missing} of the object it replaces: the state silently falls back to the default (e.g. a case-insensitive regular expression becomes case-sensitive after placeholder expansion)", loc)
+                r.violation(rid, f.qual, short(c, 100), f"the rebuilt {cq.rsplit('.', 1)[-1]} does not receive {missing} of the object it replaces: the state silently falls back to the default (e.g. a case-insensitive regular expression becomes case-sensitive after placeholder expansion)", loc)
             else:
-                r.ok("C12.R6", f.qual, f"{short(c, 80)} supplies {fields[cq]}", loc)
-    r.floor("C12.R6", 2)
+                r.ok(rid, f.qual, f"{short(c, 80)} supplies {fields[cq]}", loc)
+    r.floor(rid, floor)
 
 
 def r7_one_to_many(ctx) -> None:
